@@ -31,6 +31,10 @@ UNDER_TEST = [
     (C("FKF", "MARG"), {}, 2e-2),
     (C("Complementary", "IMU"), {}, 5e-3), (C("Complementary", "MARG"), {}, 5e-3),
     (C("Fourati", "MARG"), {}, 2e-2),
+    # a brisk non-default gain and a BIASED gyroscope: the steady-state estimate depends on the gain, so a run that comes out of a
+    # dropout with another gain (or any other damaged carried state) no longer returns to the undisturbed estimates
+    # (tolerance: the normalised gradient step of 0.5 rad/s x 0.01 s makes the estimate chatter by 5e-3 rad around its steady state)
+    (C("Madgwick", "MARG", gain="high"), {"gain": 0.5, "__gyro_bias__": 0.2}, 3e-2),
 ]
 
 
@@ -42,7 +46,7 @@ def zeroes(fk, what):
     return {"ok": False, "acc0": what == "acc", "mag0": what == "mag", "gyr0": what == "gyr", "accmag0": what in ("acc", "mag"), "all0": True}[fk]
 
 
-def history(u, pattern, seed, cfg, thin=False):
+def history(u, pattern, seed, cfg, thin=False, bias=0.0):
     R = core.g_rot(u)
     n = SLOT * NSLOTS
     rng = core.rng(seed, "c13", u)
@@ -50,7 +54,7 @@ def history(u, pattern, seed, cfg, thin=False):
     href = np.array([2.0, 0.0, 1.0]) / math.sqrt(5) if cfg["f"] == "ROLEQ" else np.array([1.0, 0.0, 2.0]) / math.sqrt(5)
     acc = np.tile(R.T @ gref * 9.81, (n, 1))
     mag = np.tile(R.T @ href * 48.0, (n, 1))
-    gyr = rng.normal(size=(n, 3)) * 1e-3
+    gyr = rng.normal(size=(n, 3)) * 1e-3 + np.array([bias, -0.5 * bias, 0.25 * bias])
     ga, aa, ma = gyr.copy(), acc.copy(), mag.copy()
     for i, fk in enumerate(pattern):
         # a dropout lasts the whole slot, or (thin) only its first sample: single-sample dropouts
@@ -71,7 +75,9 @@ def angle(p, q):
 
 def run_cfg(args):
     ti, patterns, seed = args
-    cfg, extra, tol = UNDER_TEST[ti]
+    cfg, extra0, tol = UNDER_TEST[ti]
+    bias_ = extra0.get("__gyro_bias__", 0.0)
+    extra = {k: v for k, v in extra0.items() if not k.startswith("__")}
     cname = name_of(cfg)
     us = uses(cfg)
     t = Tally()
@@ -84,7 +90,7 @@ def run_cfg(args):
         u = TRUTHS[pi % len(TRUTHS)]
         stream = can_stream and pi % 2 == 1
         thin = (pi % 3 == 2) if forced_thin is None else forced_thin
-        clean, faulted = history(u, pattern, seed, cfg, thin=thin)
+        clean, faulted = history(u, pattern, seed, cfg, thin=thin, bias=bias_)
         kinds = sorted(set(pattern) - {"ok"})
         visible = [fk for fk in kinds if any(us[w] and zeroes(fk, w) for w in ("acc", "mag", "gyr"))]
         case = {"cfg": cname, "pattern": pattern, "truth": u, "single_sample_dropouts": thin}
